@@ -342,7 +342,11 @@ def run(ctx):
         return ctx.lost("C17-d", str(e))
     order = rule_d(ctx, R, roots)
     ctx.rule("C17-e", "hash-order isolation: values obtained by iterating a randomly seeded hash container reach only verified commutative reducers")
-    common.hash_order_isolation(ctx, R, "C17-e", roots)
+    try:
+        hroots = roots + [R.build_sampler()]
+    except RoleLost as e:
+        return ctx.lost("C17-e", str(e))
+    common.hash_order_isolation(ctx, R, "C17-e", hroots)
     rule_f(ctx, R)
     rule_g(ctx, R)
     rule_h(ctx, R)
